@@ -135,9 +135,14 @@ def flavor_job(args):
         scale = max(1.0, float(np.max(np.abs(arr))))
         out = np.empty(arr.shape, dtype=object)
         for idx, v in np.ndenumerate(arr):
-            f = drv.recover(v, maxden, 1e-9 * scale) if math.isfinite(v) else None
-            if f is None:
+            if not math.isfinite(v) or abs(v) >= 2.0e9:
                 return None
+            f = drv.recover(v, maxden, 1e-9 * scale)
+            if f is None:
+                # not a rational with the denominators an exact reshape can produce: it cannot be the
+                # right value; TLC gets the rounded number and judges the commutation on it
+                f = drv.rounded(v)
+                rec["rounded"] = rec.get("rounded", 0) + 1
             out[idx] = drv.rj(f)
         return out.tolist()
 
@@ -214,10 +219,20 @@ def grid_job(args):
     arr = np.asarray(new.operator, dtype=float)
     out = np.empty(arr.shape, dtype=object)
     for idx, v in np.ndenumerate(arr):
-        f = F(float(v)) if math.isfinite(v) else None
-        if f is None or abs(f.numerator) >= 2**31 or f.denominator >= 2**20:
+        if not math.isfinite(v) or abs(v) >= 2.0e9:
             rec["exact"] = False
             return rec
+        f = F(float(v))
+        if abs(f.numerator) >= 2**31 or f.denominator >= 2**20:
+            # on a dyadic linear grid the exact result is dyadic with a small denominator: rounding
+            # noise (<= 1e-12) is snapped, anything else cannot be the right value and is sent
+            # rounded to 1/256 so that TLC judges the commutation on it
+            snap = F(float(v)).limit_denominator(4096)
+            if abs(float(snap) - float(v)) <= 1e-12 * max(1.0, abs(float(v))):
+                f = snap
+            else:
+                f = drv.rounded(v)
+                rec["rounded"] = rec.get("rounded", 0) + 1
         out[idx] = drv.rj(f)
     rec["Onew"] = out.tolist()
     rec["ps"] = [nrng.integers(-2, 3, size=(NF, deg + 1)).tolist() for _ in range(2)]
